@@ -41,3 +41,25 @@ func TestFindingG6G7ReaperAgainstDispatcher(t *testing.T) {
 		w.Stop()
 	}
 }
+
+// G4b  varmq.worker.releaseWaiters#assert:broadcast-under-lock -- releaseWaiters broadcast without holding the mutex of the condition
+// variable: a WaitUntilFinished caller that has just evaluated "still busy" but has not parked yet missed the broadcast and slept on,
+// although nothing was pending and nothing processing any more (failed within seconds on the tree before fix 30fde54).
+func TestFindingG4bBroadcastOutsideTheWaitersMutex(t *testing.T) {
+	w := NewWorker(func(j Job[int]) {}, WithConcurrency(4))
+	q := w.BindQueue()
+	defer w.Stop()
+	deadline := time.Now().Add(10 * time.Second)
+	for round := 0; time.Now().Before(deadline); round++ {
+		for i := 0; i < 4; i++ {
+			q.Add(i)
+		}
+		done := make(chan struct{})
+		go func() { w.WaitUntilFinished(); close(done) }()
+		select {
+		case <-done:
+		case <-time.After(2 * time.Second):
+			t.Fatalf("round %d: WaitUntilFinished still parked after 2s with pending=%d processing=%d", round, w.NumPending(), w.NumProcessing())
+		}
+	}
+}
